@@ -228,6 +228,25 @@ impl ElementHasher for Rp62_248 {
     }
 }
 
+// VERIFICATION HOOKS
+// ================================================================================================
+
+#[cfg(winterfell_verif)]
+impl Rp62_248 {
+    /// Verification hook: the (otherwise private) MDS matrix of this hash function.
+    pub const VERIF_MDS: [[BaseElement; STATE_WIDTH]; STATE_WIDTH] = MDS;
+
+    /// Verification hook: applies one round of the permutation to the state.
+    pub fn verif_apply_round(state: &mut [BaseElement; STATE_WIDTH], round: usize) {
+        apply_round(state, round)
+    }
+
+    /// Verification hook: applies the whole permutation to the state.
+    pub fn verif_apply_permutation(state: &mut [BaseElement; STATE_WIDTH]) {
+        apply_permutation(state)
+    }
+}
+
 // RESCUE PERMUTATION
 // ================================================================================================
 
